@@ -371,3 +371,42 @@ func c07DryDirectiveSpace(c *fw.Ctx) {
 			}
 		})
 }
+
+// c07CutShortSpace: the input ends in the middle of an entry. Whether the last line has a line terminator is lexical
+// trivia: a text that is an error when a newline follows it is an error without one too — the parser may not drop
+// the entry it could not finish.
+func c07CutShortSpace(c *fw.Ctx) {
+	entries := []string{
+		"a. 5 IN A 192.0.2.1", "a. IN 5 MX 10 mail.example.", "  5 IN A 192.0.2.1", "a. A 192.0.2.1", "a. 5 IN TXT \"x y\" ( \"z\" )",
+		"$TTL 300", "$ORIGIN example.", "$INCLUDE x1", "$GENERATE 1-2 a$ A 192.0.2.$", "a. 5 IN SOA ns. hm. 1 2 3 4 5",
+	}
+	c.Space("cut-short", fmt.Sprintf("%d entries (records in four header shapes, TXT in parentheses, SOA, $TTL, $ORIGIN, $INCLUDE, $GENERATE) behind a complete record line, the text cut after every octet of the entry, without a final newline: if the same text followed by a newline is an error, the text itself is an error too or yields a record for the cut entry (it is not dropped silently), and the record of the first line is returned in both; × origins {\"\", example.}; non-trivial: the cut text with a newline is an error", len(entries)), true,
+		func(emit func(func(*fw.R))) {
+			for _, e := range entries {
+				e := e
+				emit(func(r *fw.R) {
+					pre := "first. 5 IN A 192.0.2.9\n"
+					for k := 1; k <= len(e); k++ {
+						cut := pre + e[:k]
+						for _, o := range []string{"", "example."} {
+							cfg := c07Cfg{o, true, 1}
+							var p1, p2 []string
+							with := c07Run(cut+"\n", cfg, &p1)
+							without := c07Run(cut, cfg, &p2)
+							if with.err != nil {
+								r.Nontrivial()
+								// (an RDATA-less record — 'a. 5 IN A ' at the end of the input — is a record, not a dropped entry)
+								if without.err == nil && without.nrec <= 1 {
+									r.Fail("cut-short/dropped-silently", "the input %s (no final newline) ends in the middle of an entry and is accepted: %d records, Err() = nil; with a newline behind it: %v\n   config: %s", c07Show(cut), without.nrec, with.err, cfg)
+								}
+							}
+							if without.nrec < 1 || with.nrec < 1 {
+								r.Fail("cut-short/first-record-lost", "the complete first line was not returned for %s: %d / %d records (without / with final newline)", c07Show(cut), without.nrec, with.nrec)
+							}
+						}
+					}
+					r.Count("cuts", int64(len(e)))
+				})
+			}
+		})
+}
